@@ -779,6 +779,7 @@ def _re_exec(E, args, kwargs, node, how):
         return E.alloc(HObj(None, {'groups': [VC(g) for g in groups], 'spans': [(VC(a), VC(b)) for a, b in spans],
                                    'text': text}, name='match'))
     s = E.as_z3_str(text)
+    rz = regex_to_z3(pat.pattern, pat.flags)
     E.lib_used.add('re %s on symbolic text: None, or pos <= start <= end <= len(text), group(0) == text[start:end]%s '
                    '(generic contract; what the pattern accepts is not modelled)' % (how, ', start == pos' if how == 'match' else ''))
     if E.decide(2, 're %s fails' % how) == 1:
@@ -790,6 +791,11 @@ def _re_exec(E, args, kwargs, node, how):
         E.assume(st == p)
     import re as _re_
     n = _re_.compile(pat.pattern, pat.flags).groups
+    if rz is not None:
+        # the matched text belongs to the language of the pattern (which of several possible matches CPython
+        # picks -- leftmost, greedy -- is not modelled: any match is allowed, an over-approximation)
+        E.assume(z3.InRe(z3.SubString(s, st, en - st), rz))
+        E.lib_used.add('re: the matched text is in the language of the pattern (z3 regular expression); leftmost/greedy choice not modelled')
     groups = [VS(z3.SubString(s, st, en - st))] + [VS(z3.String(E.fresh('grp'))) for _ in range(n)]
     spans = [(VI(st), VI(en))] + [(VI(E.fresh_int('gs')), VI(E.fresh_int('ge'))) for _ in range(n)]
     return E.alloc(HObj(None, {'groups': groups, 'spans': spans, 'text': text}, name='match'))
@@ -901,3 +907,82 @@ def _dictview_method(name):
 PSEUDO_OBJ_ATTR['dictview'] = _dictview_attr
 for _n in ('items', 'keys', 'values'):
     TABLE['dictview.' + _n] = _dictview_method(_n)
+
+
+def regex_to_z3(pattern, flags=0):
+    """translate a Python regular expression of the simple class (literals, classes, ., repetition, alternation, groups;
+    no anchors inside, no back-references, no look-around) to a z3 regular expression; None if outside that class"""
+    import re as _re_
+    try:
+        import re._parser as sp
+        import re._constants as sc
+    except ImportError:          # pragma: no cover
+        import sre_parse as sp
+        import sre_constants as sc
+    icase = bool(flags & _re_.I)
+    Sre = z3.StringSort()
+
+    def lit(c):
+        ch = chr(c)
+        if icase and ch.lower() != ch.upper():
+            return z3.Union(z3.Re(z3.StringVal(ch.lower())), z3.Re(z3.StringVal(ch.upper())))
+        return z3.Re(z3.StringVal(ch))
+
+    def rng(a, b):
+        r = z3.Range(z3.StringVal(chr(a)), z3.StringVal(chr(b)))
+        if icase:
+            la, lb = chr(a).lower(), chr(b).lower()
+            ua, ub = chr(a).upper(), chr(b).upper()
+            if la <= lb and (la, lb) != (chr(a), chr(b)):
+                r = z3.Union(r, z3.Range(z3.StringVal(la), z3.StringVal(lb)))
+            if ua <= ub and (ua, ub) != (chr(a), chr(b)):
+                r = z3.Union(r, z3.Range(z3.StringVal(ua), z3.StringVal(ub)))
+        return r
+    anychar = z3.Range(z3.StringVal(chr(0)), z3.StringVal(chr(0x2FFFF)))
+
+    def conv(items):
+        parts = []
+        for op, av in items:
+            if op == sc.LITERAL:
+                parts.append(lit(av))
+            elif op == sc.NOT_LITERAL:
+                parts.append(z3.Intersect(anychar, z3.Complement(lit(av))))
+            elif op == sc.ANY:
+                parts.append(z3.Intersect(anychar, z3.Complement(z3.Re(z3.StringVal(chr(10))))))
+            elif op == sc.IN:
+                neg = False
+                alts = []
+                for o2, a2 in av:
+                    if o2 == sc.NEGATE:
+                        neg = True
+                    elif o2 == sc.LITERAL:
+                        alts.append(lit(a2))
+                    elif o2 == sc.RANGE:
+                        alts.append(rng(a2[0], a2[1]))
+                    else:
+                        raise ValueError('class item')
+                u = alts[0] if len(alts) == 1 else z3.Union(*alts)
+                parts.append(z3.Intersect(anychar, z3.Complement(u)) if neg else u)
+            elif op in (sc.MAX_REPEAT, sc.MIN_REPEAT):
+                lo, hi, sub = av
+                r = conv(sub)
+                if hi == sc.MAXREPEAT:
+                    rep = z3.Star(r) if lo == 0 else (z3.Plus(r) if lo == 1 else z3.Concat(*([r] * lo + [z3.Star(r)])))
+                else:
+                    rep = z3.Loop(r, lo, hi)
+                parts.append(rep)
+            elif op == sc.SUBPATTERN:
+                parts.append(conv(av[3]))
+            elif op == sc.BRANCH:
+                parts.append(z3.Union(*[conv(b) for b in av[1]]))
+            elif op == sc.AT and av in (sc.AT_END, sc.AT_END_STRING):
+                raise ValueError('anchor')
+            else:
+                raise ValueError('unsupported regex op %s' % (op,))
+        if not parts:
+            return z3.Re(z3.StringVal(''))
+        return parts[0] if len(parts) == 1 else z3.Concat(*parts)
+    try:
+        return conv(sp.parse(pattern, flags))
+    except Exception:
+        return None
